@@ -159,6 +159,47 @@ def _run_reference(args):
     env = {}
     execs.run_program(prog, sched, force, env=env)
     stats = {"reference_marginals": 0}
+    # dense numpy reference model of the tensor fragment (sim/refmodel.py)
+    from collections import OrderedDict
+
+    import numpy as np
+
+    import funsor
+    from sim import refmodel
+
+    ref = refmodel.evaluate(prog)
+    stats["refmodel_values"] = 0
+    stats["refmodel_silent"] = 0
+    for op in prog:
+        out = op["out"]
+        if out not in env:
+            continue
+        if out not in ref:
+            stats["refmodel_silent"] += 1
+            continue
+        try:
+            val = execs.force_value(env[out], force)
+        except Exception:  # noqa
+            continue
+        if not isinstance(val, funsor.terms.Funsor):
+            continue
+        v = ref[out]
+        arr = v.arr
+        if val.output.dtype == "real":
+            arr = arr.astype(np.float64)
+        msg = None
+        if tuple(val.output.shape) != tuple(v.event):
+            msg = "output shape %s, the reference model gives %s" % (tuple(val.output.shape), tuple(v.event))
+        else:
+            t = funsor.Tensor(arr, OrderedDict((n, funsor.Bint[v.sizes[n]]) for n in v.names), val.output.dtype)
+            try:
+                msg = oracle.compare(t, val)
+            except oracle.Declined:
+                stats["refmodel_silent"] += 1
+                continue
+        stats["refmodel_values"] += 1
+        if msg:
+            return {"stats": stats, "message": "%s (%s) under mode %s: reference model vs funsor: %s" % (out, op["op"], mode, msg), "root": out, "invariant": "value-differs-from-reference-model"}
     for op in prog:
         if op["op"] == "integrate" and op["out"] in env and op["a"] in env and op["b"] in env:
             try:
@@ -234,7 +275,7 @@ def enumerate_program(payload):
                 "replay_variant": {"record": True},
             }
         )
-    if any(op["op"] in ("reduce_real", "integrate") for op in prog) and payload.get("only") in (None, "reference"):
+    if payload.get("only") in (None, "reference"):
         ref = fork_call(_run_reference, ((prog, mode, payload.get("family")),), timeout=120)
         stats["runs"] += 1
         if ref.get("status") == "ok":
@@ -243,11 +284,11 @@ def enumerate_program(payload):
             if ref["res"]["message"]:
                 violations.append(
                     {
-                        "invariant": "marginal-differs-from-reference",
+                        "invariant": ref["res"].get("invariant", "marginal-differs-from-reference"),
                         "message": ref["res"]["message"],
                         "root": ref["res"]["root"],
                         "variant": "reference",
-                        "fingerprint": "marginal-differs-from-reference",
+                        "fingerprint": ref["res"].get("invariant", "marginal-differs-from-reference"),
                     }
                 )
         else:
@@ -459,6 +500,8 @@ def summarize(jobs, results, tier):
         "reference_model_marginals": {
             "marginals_checked": tot.get("reference_marginals", 0),
             "integrals_checked": tot.get("reference_integrals", 0),
+            "tensor_values_compared_with_dense_model": tot.get("refmodel_values", 0),
+            "values_outside_the_dense_model": tot.get("refmodel_silent", 0),
             "points_compared_with_closed_form": tot.get("reference_points", 0),
             "points_where_model_is_silent": tot.get("reference_silent", 0),
             "points_where_funsor_raised": tot.get("reference_errors", 0),
